@@ -72,6 +72,7 @@ def families(tier, rng):
 
 
 def classify(pb, what):
+    """stable violation key (not a known finding any more: fixed by 557c2c1)"""
     if "raises" in what and (pb["h"] == 1 or pb["w"] == 1):
         return "castle_wall:raises:single-row-or-column"
     return None
@@ -81,4 +82,9 @@ def tier2(tier, rng):
     th = tier == "thorough"
     for (h, w) in [(2, 2), (2, 3)]:
         for pb in L.sample(rng, _single(h, w), 20 if th else 4):
+            yield pb
+    # single row / single column: no loop fits, white clue cells make the problem unsolvable
+    for (h, w) in [(1, 1), (1, 2), (2, 1), (1, 3), (3, 1)]:
+        one = [pb for pb in _single(h, w) if pb["side"] != [[0] * w for _ in range(h)]]
+        for pb in L.sample(rng, one, 12 if th else 3):
             yield pb
